@@ -318,6 +318,7 @@ def anchor_entry(eng, st, names):
 
 def anchor_loop(eng, st):
     for ref, f in _buffers(st):
+        st.ghost['trail:' + ref] = []
         st.ghost['anchors:' + ref] = list(st.ghost.get('anchors:' + ref, [])) + [f['i'].z]
         st.fact(JT(sl(f['Q'].z, f['i'].z, f['i'].z)) == Empty(Str))
 
@@ -350,7 +351,9 @@ def move_facts(eng, st, binding, pre):
         for k in (1, 2, 3):
             st.fact(Implies(And(0 <= i0, i1 == i0 + k, i1 <= n), JT(sl(Q, i0, i1)) ==
                             (Concat(*[Tok.text(Q[i0 + j]) for j in range(k)]) if k > 1 else Tok.text(Q[i0]))))
-        for a in st.ghost.get('anchors:' + ref, []):
+        trail = list(st.ghost.get('trail:' + ref, []))
+        st.ghost['trail:' + ref] = (trail + [i0])[-6:]
+        for a in list(st.ghost.get('anchors:' + ref, [])) + [p for p in trail if not p.eq(i0)]:
             st.fact(Implies(And(0 <= a, a <= i0, i0 <= i1, i1 <= n),
                             JT(sl(Q, a, i1)) == Concat(JT(sl(Q, a, i0)), JT(sl(Q, i0, i1)))))
             st.fact(Implies(And(0 <= a), JT(sl(Q, a, a)) == Empty(Str)))
@@ -387,9 +390,31 @@ REG.attr_hooks.append(callback_hook)
 
 @REG.specfun('condv')
 def _condv(ctx, cond, buf, k, peek):
+    """value of the callback at cursor k (on the item for peek=True, on the buffer itself for peek=False)"""
     f = ctx.st.heap[buf.a['ref']]
     Q = f['Q'].z
-    return VB(If(ops.truth(peek), cond_tok(Q[k.z]), cond_buf(Q, k.z)))
+    if 'abstract' in cond.a:
+        return VB(If(ops.truth(peek), cond_tok(Q[k.z]), cond_buf(Q, k.z)))
+    # a concrete closure: evaluate it on a shadow buffer positioned at k (pure, cursor-preserving by assumption)
+    eng, st = ctx.engine, ctx.st
+    pz = simplify(ops.truth(peek))
+    if not (is_true(pz) or is_false(pz)):
+        raise Unsupported('symbolic peek flag with a concrete callback')
+    shadow = st.new_obj(buf.a['cls'], {'Q': f['Q'], 'i': VI(k.z), 'm': VI(Length(Q))})
+    shadow.a['view'] = buf.a.get('view', 'Buffer')
+    arg = VTok(Q[k.z]) if is_true(pz) else shadow
+    eng.suppress_obligations = getattr(eng, 'suppress_obligations', 0) + 1
+    inst = getattr(eng, '_instantiating', 0)
+    eng._instantiating = 0
+    try:
+        outs = eng.call_value(cond, [arg], {}, st, None)
+    finally:
+        eng.suppress_obligations -= 1
+        eng._instantiating = inst
+    vals = [o for o in outs if o[0] == 'val']
+    if len(outs) != 1 or len(vals) != 1 or vals[0][1] is not st:
+        raise Unsupported('callback forks or raises')
+    return VB(eng.truth_of(vals[0][2], st))
 
 
 _FU_INV = [A('i-lo', 'old(self.i) <= self.i'), A('i-hi', 'self.i <= len(self.Q)'), A('inv', 'inv(self)'),
